@@ -432,6 +432,57 @@ def gen_units(repo):
         for a in ctor_args:
             m2.translate_units_ctor_rule(cls, a, f"{cls}_ctor_{a}", keys)
         m.out += m2.out
+    # T22: what a pickle / copy round trip does to the extended properties of Scalar, Vector, XYData: `__reduce__` hands the dictionary over
+    # with copy_extended_properties=False, `_unpickle` remembers which units entries were there, calls the constructor (units arguments
+    # at their default "") and removes the entries the constructor added
+    def stmts(path, cls, name):
+        m_ = T.Module(f"{repo}/src/nitypes/{path}", "Gen.Units")
+        fn = m_.find_func(cls, name)
+        return [ast.unparse(st) for st in fn.body if not (isinstance(st, ast.Expr) and isinstance(st.value, ast.Constant))], fn, m_
+
+    def expect(path, cls, name, want):
+        got, fn, m_ = stmts(path, cls, name)
+        if got != want:
+            raise T.Untranslatable(f"{cls}.{name} is not the expected statement list:\n" + "\n".join(got), fn, m_.path)
+    RET = "return (self.__class__._unpickle, (ctor_args, ctor_kwargs))"
+    KW = "ctor_kwargs: dict[str, Any] = {'extended_properties': self._extended_properties, 'copy_extended_properties': False}"
+    expect("scalar.py", "Scalar", "__reduce__", ["ctor_args = (self.value,)", KW, RET])
+    expect("scalar.py", "Scalar", "_unpickle", ["had_units = UNIT_DESCRIPTION in kwargs['extended_properties']", "scalar = cls(*args, **kwargs)",
+                                                "if not had_units:\n    del scalar._extended_properties[UNIT_DESCRIPTION]", "return scalar"])
+    expect("vector.py", "Vector", "__reduce__", ["ctor_args = (self._values,)",
+           "ctor_kwargs: dict[str, Any] = {'value_type': self._value_type, 'extended_properties': self._extended_properties, 'copy_extended_properties': False}", RET])
+    expect("vector.py", "Vector", "_unpickle", ["had_units = UNIT_DESCRIPTION in kwargs['extended_properties']", "value_type = kwargs.get('value_type')",
+           "if value_type is None:\n    vector = cls(*args, **kwargs)\nelse:\n    values, = args\n    vector = cls([], **kwargs)\n    vector._values = list(values)",
+           "if not had_units:\n    del vector._extended_properties[UNIT_DESCRIPTION]", "return vector"])
+    expect("xy_data.py", "XYData", "__reduce__", ["ctor_args = (self._x_data, self._y_data)", KW, RET])
+    expect("xy_data.py", "XYData", "_unpickle", ["unit_keys = (_UNIT_DESCRIPTION_X, _UNIT_DESCRIPTION_Y)", "missing = [key for key in unit_keys if key not in kwargs['extended_properties']]",
+           "xy_data = cls(*args, **kwargs)", "for key in missing:\n    del xy_data._extended_properties[key]", "return xy_data"])
+    # with copy_extended_properties=False and a dictionary object the constructor takes the dictionary as it is
+    TAKE = "if copy_extended_properties or not isinstance(extended_properties, ExtendedPropertyDictionary):\n    extended_properties = ExtendedPropertyDictionary(extended_properties)"
+    for path, cls in (("scalar.py", "Scalar"), ("vector.py", "Vector"), ("xy_data.py", "XYData")):
+        got, fn, m_ = stmts(path, cls, "__init__")
+        if TAKE not in got or "self._extended_properties = extended_properties" not in got or got.index("self._extended_properties = extended_properties") != got.index(TAKE) + 1:
+            raise T.Untranslatable(f"{cls}.__init__ does not take over the dictionary in the expected way", fn, m_.path)
+        allargs = fn.args.args + fn.args.kwonlyargs
+        alldefs = [None] * (len(fn.args.args) - len(fn.args.defaults)) + list(fn.args.defaults) + list(fn.args.kw_defaults)
+        defaults = {a.arg: d for a, d in zip(allargs, alldefs)}
+        for u in (("units",) if cls != "XYData" else ("x_units", "y_units")):
+            d = defaults.get(u)
+            if not (isinstance(d, ast.Constant) and d.value == ""):
+                raise T.Untranslatable(f"{cls}.__init__: the default of {u} is not the empty string", fn, m_.path)
+    E = "(Model.Units.PVal.str [])"
+    for cls in ("Scalar", "Vector"):
+        m.out += [f"/-- generated from `{cls}.__reduce__` / `_unpickle`: the extended properties of the rebuilt object, given the pickled ones -/",
+                  f"@[pygen] def {cls}_unpickle_props (props : Model.Units.Dict) : Except PyErr Model.Units.Dict :=",
+                  "  let had_units : Bool := (props.get key_UNIT_DESCRIPTION).isSome",
+                  f"  Except.bind ({cls}_ctor_units props {E}) (fun props1 =>",
+                  "    if ¬ (had_units = true) then Model.Units.Dict.del props1 key_UNIT_DESCRIPTION else Except.ok props1)", ""]
+    m.out += ["/-- generated from `XYData.__reduce__` / `_unpickle` -/",
+              "@[pygen] def XYData_unpickle_props (props : Model.Units.Dict) : Except PyErr Model.Units.Dict :=",
+              "  let missing : List Model.Units.Str := [key_UNIT_DESCRIPTION_X, key_UNIT_DESCRIPTION_Y].filter (fun key => (props.get key).isNone)",
+              f"  Except.bind (XYData_ctor_x_units props {E}) (fun props1 =>",
+              f"  Except.bind (XYData_ctor_y_units props1 {E}) (fun props2 =>",
+              "    missing.foldlM (fun d key => Model.Units.Dict.del d key) props2))", ""]
     return m
 
 
